@@ -45,8 +45,9 @@ def gen_case(ctx, stream, idx):
         return irgen.similar_ir(r, type_kinds=("int", "float", "str", "bool"), default_kinds=("int", "float", "str", "bool"),
                                 all_defaults=True, with_return=False)
     if stream == "core":
-        return irgen.rand_ir(r, nparams=r.randint(1, 5), type_kinds=CORE_T, default_kinds=CORE_D, all_defaults=True,
-                             with_return=False, doc_kinds=("plain", "plain", "punct"))
+        # (every 16th interface has no parameter at all: an empty signature is legal and every format can say it)
+        return irgen.rand_ir(r, nparams=0 if idx % 16 == 3 else r.randint(1, 5), type_kinds=CORE_T, default_kinds=CORE_D,
+                             all_defaults=True, with_return=False, doc_kinds=("plain", "plain", "punct"))
     # probe: required parameters, and str defaults with a double quote / backslash / backtick (which the docstring hop
     # cannot carry - a recorded finding - but every other hop must)
     ir = irgen.rand_ir(r, nparams=r.randint(1, 4), type_kinds=CORE_T + ("str",), default_kinds=CORE_D + ("absent", "strbad"),
